@@ -96,6 +96,8 @@ pub const SITES: &[&str] = &[
     "harness.closure.mid",
     "harness.closure.end",
     "harness.dtor",
+    // inside the retain() predicate (the pool holds its lock there)
+    "harness.pred",
 ];
 
 /// Sites that lie inside a lock region of the code under test.
@@ -108,6 +110,7 @@ pub const SITES_IN_LOCK: &[&str] = &[
     "sync.sem.post_add_permits",
     "sync.sem.pre_close",
     "sync.sem.post_close",
+    "harness.pred",
 ];
 
 pub fn site_index(name: &str) -> Option<usize> {
